@@ -53,7 +53,7 @@ META = {
             "sets, gaps, corrupted/truncated/foreign sets, random words), n in 1..8 (TSEQ up to 32); ~35 % of detector runs "
             "contain only well-formed sets and idle gaps",
 }
-TIERS = {"quick": {"runs": 5000, "wall": 70}, "thorough": {"runs": 60000, "wall": 900}}
+TIERS = {"quick": {"runs": 15000, "wall": 70}, "thorough": {"runs": 60000, "wall": 900}}
 
 KINDS = ["TSEQ", "TS1", "TS2", "ITS1"]
 MAX_LAT = 4
